@@ -328,7 +328,8 @@ where
             .send(task_id)
             .expect("Could not make task ready, ready channel disconnected");
 
-        Command {
+        #[allow(clippy::let_and_return)]
+        let command = Command {
             effects: effect_receiver,
             events: event_receiver,
             context,
@@ -338,7 +339,11 @@ where
             tasks,
             waker: Default::default(),
             aborted,
-        }
+        };
+        #[cfg(crux_verif)]
+        command.verif_ev("new", task_id.0, 0, 0);
+
+        command
     }
 
     /// Create an empty, completed Command. This is useful as a return value from `update` if
@@ -436,7 +441,12 @@ where
     pub fn is_done(&mut self) -> bool {
         self.run_until_settled();
 
-        self.effects.is_empty() && self.events.is_empty() && self.tasks.is_empty()
+        #[allow(clippy::let_and_return)]
+        let done = self.effects.is_empty() && self.events.is_empty() && self.tasks.is_empty();
+        #[cfg(crux_verif)]
+        self.verif_ev("isdone", usize::from(done), 0, 0);
+
+        done
     }
 
     /// Run the effect state machine until it settles and return an iterator over the effects
